@@ -67,6 +67,26 @@ theorem sameCache_newExc (s : St) : SameCache s s.newExc := ⟨rfl, rfl, rfl⟩
 
 theorem sameCache_rollback (s : St) (n : Node) : SameCache s (s.rollback n) := ⟨rfl, rfl, rfl⟩
 
+/-- `drainRefs` touches only `refstack` and `rg` -/
+structure DrainSame (s s' : St) : Prop where
+  data : s'.data = s.data
+  inputs : s'.inputs = s.inputs
+  gn : s'.gn = s.gn
+  ge : s'.ge = s.ge
+  stack : s'.stack = s.stack
+  idx : s'.idx = s.idx
+  rolledback : s'.rolledback = s.rolledback
+  curExc : s'.curExc = s.curExc
+  excStack : s'.excStack = s.excStack
+  hit : s'.hit = s.hit
+  log : s'.log = s.log
+
+theorem drainSame (env : Env) (s : St) (n : Node) : DrainSame s (s.drainRefs env n) := by
+  unfold St.drainRefs
+  split
+  · exact ⟨rfl, rfl, rfl, rfl, rfl, rfl, rfl, rfl, rfl, rfl, rfl⟩
+  · split <;> exact ⟨rfl, rfl, rfl, rfl, rfl, rfl, rfl, rfl, rfl, rfl, rfl⟩
+
 theorem sameCache_pop (env : Env) (s : St) (n : Node) : SameCache s (s.pop env n) := by
   unfold St.pop
   have h1 : SameCache s s.dropFrame := ⟨rfl, rfl, rfl⟩
@@ -77,8 +97,11 @@ theorem sameCache_pop (env : Env) (s : St) (n : Node) : SameCache s (s.pop env n
     · split
       · exact sameCache_addNode _ _
       · exact SameCache.refl _
-  have h3 : SameCache (s.dropFrame.popEdge env n) ((s.dropFrame.popEdge env n).drainRefs n) :=
-    ⟨rfl, rfl, rfl⟩
+  have h3 : SameCache (s.dropFrame.popEdge env n) ((s.dropFrame.popEdge env n).drainRefs env n) := by
+    unfold St.drainRefs
+    split
+    · exact ⟨rfl, rfl, rfl⟩
+    · split <;> exact ⟨rfl, rfl, rfl⟩
   exact (h1.trans h2).trans h3
 
 end MxModel.Exec
